@@ -278,10 +278,10 @@ def m_list(interp, args, kwargs):
             return interp.call(functools_model.map_list, [src.f, src.xs], {})
         finally:
             src.frame.model_site = saved
+    src = as_siter(interp, src)
     if isinstance(src, SIter):
-        # list(iterator over a symbolic sequence): its remaining items (the iterator is consumed)
-        from . import seqs
-        return seqs.as_slist(interp, src)
+        from . import texts
+        return texts.rest_of_iter(interp, src)
     return list(interp.iterate(src))
 
 
@@ -400,6 +400,7 @@ def m_enumerate(interp, args, kwargs):
     src = args[0]
     if isinstance(src, (SOpt, SChoice)):
         src = interp.resolve(src)
+    src = as_siter(interp, src)
     if isinstance(src, (SList, SIter)):
         return SEnumerate(src, start)
     return _lazy_enumerate(interp, interp.iterate(src), start)
@@ -509,6 +510,7 @@ def m_iter(interp, args, kwargs):
         x = interp.resolve(x)
     if isinstance(x, SList):
         return SIter(x, 0)
+    x = as_siter(interp, x)
     if isinstance(x, SIter):
         return x
     return interp.iterate(x)
@@ -516,7 +518,7 @@ def m_iter(interp, args, kwargs):
 
 @model(builtins.next)
 def m_next(interp, args, kwargs):
-    it = args[0]
+    it = as_siter(interp, args[0])
     from .interp import GenObj, PyRaise
     if isinstance(it, SIter):
         return it.next(interp, args[1:] if len(args) > 1 else None)
@@ -765,13 +767,24 @@ def m_str_join(interp, self, args, kwargs):
     src = args[0]
     if isinstance(src, (SOpt, SChoice)):
         src = interp.resolve(src)
+    src = as_siter(interp, src)
     from .mlist import MList
     if isinstance(src, MList):
         from . import mlist
-        return mlist.join(interp, self, src)
-    if isinstance(src, SList):
-        from . import strings
-        return strings.join_slist(interp, self, src)
+        return mlist.join(interp, self, src)       # list measures of mutable lists (pyvc.mlist); texts.prefix_join agrees
+    if isinstance(src, (SList, SIter)):
+        from . import texts
+        if self != '':
+            # a non-empty separator: the call-site invariant / structural join of pyvc.strings (no prefix measure)
+            from . import strings, seqs
+            return strings.join_slist(interp, self, seqs.as_slist(interp, src))
+        if isinstance(src, SList):
+            from . import loops
+            r = loops.join_slist(interp, self, src)      # a call-site loop spec 'join#k' of the calling function
+            if r is not NotImplemented:
+                return r
+            return texts.join_all(interp, src)
+        return texts.join_iter(interp, src)
     from . import charclass
     if isinstance(src, charclass.SCharIter):
         if isinstance(self, str) and self == '':
@@ -970,6 +983,8 @@ def call_sym_method(interp, recv, name, args, kwargs):
         return strings.call_method(interp, recv, name, args, kwargs)
     if isinstance(recv, SList):
         return slist_method(interp, recv, name, args, kwargs)
+    if isinstance(recv, SIter):
+        return recv.call_method(interp, name, args, kwargs)
     if isinstance(recv, SMap):
         return smap_method(interp, recv, name, args, kwargs)
     if isinstance(recv, SMapProxy):
@@ -1035,8 +1050,8 @@ def slist_iter(interp, xs):
 
 
 def slist_copy(interp, xs):
-    from . import seqs
-    return seqs.copy(xs)
+    from . import texts
+    return texts.copy_slist(interp, xs)
 
 
 def slist_binop(interp, opcls, a, b):
@@ -1086,6 +1101,26 @@ class SIter:
         if default is not None:
             return default[0]
         raise _pyraise(StopIteration())
+
+    def call_method(self, interp, name, args, kwargs):
+        if name == '__iter__':
+            return self
+        if name == '__next__':
+            return self.next(interp, None)
+        raise Unsupported('method %s on an iterator over a symbolic-length sequence' % name)
+
+
+def as_siter(interp, v):
+    """The (sequence, position) cell behind an object that is its own iterator (e.g. a text file opened
+    for reading, modelled as an opaque object whose interface gives `__pv_iter__`); other values unchanged."""
+    if isinstance(v, (SOpt, SChoice)):
+        v = interp.resolve(v)
+    if isinstance(v, Opaque):
+        from .api import _iface_lookup
+        m = _iface_lookup(v._pv_iface, 'methods', '__iter__')
+        if m is not None:
+            return interp.reg.call_opaque(interp, v, '__iter__', [], {})
+    return v
 
 
 class SEnumerate:
